@@ -11,6 +11,8 @@ use std::collections::BTreeMap;
 use std::sync::atomic::{AtomicU64, Ordering};
 
 const CENTRE: i64 = 500;
+/// path levels are expressed in half ticks so that odd spreads (half-tick mid-prices) occur
+const CENTRE_H: i64 = 2 * CENTRE;
 
 #[derive(Clone, Debug)]
 struct Params {
@@ -78,8 +80,10 @@ fn drive(p: &Params, levels: &[i64], last_script: &[Ans], seed: u64) -> Result<R
                 w.step(&mut r0);
             }
             quotes.clear();
-            let bid = ((m - 1) as u32) * p.tick;
-            let ask = ((m + 1) as u32) * p.tick;
+            // m is the mid-price level in half ticks: even -> spread of 2 ticks, odd -> spread of 3 ticks
+            let (b, a) = if m % 2 == 0 { (m / 2 - 1, m / 2 + 1) } else { ((m - 3) / 2, (m + 3) / 2) };
+            let bid = (b as u32) * p.tick;
+            let ask = (a as u32) * p.tick;
             quotes.push(w.place_foreign(true, 1_000_000, Some(bid)));
             quotes.push(w.place_foreign(false, 1_000_000, Some(ask)));
             let mut r1 = ScriptRng::new(vec![], 12);
@@ -209,14 +213,14 @@ fn mirror(p: &Params, f: &Flow) -> Flow {
 pub fn c17(tier: &str) -> i32 {
     let mut out = Outcome::new("C17", tier, "model_checking");
     let t = crate::bookprops::thorough(tier);
-    let max_len = if t { 6 } else { 4 };
+    let max_len = if t { 5 } else { 3 };
     // all paths of moves in {-2..2}; levels[0] = CENTRE
-    let mut paths: Vec<Vec<i64>> = vec![vec![CENTRE]];
+    let mut paths: Vec<Vec<i64>> = vec![vec![CENTRE_H]];
     let mut all_paths: Vec<Vec<i64>> = Vec::new();
     for _ in 0..max_len {
         let mut next = Vec::new();
         for pth in &paths {
-            for mv in [-2i64, -1, 0, 1, 2] {
+            for mv in [-4i64, -2, -1, 0, 1, 2, 4] {
                 let mut q = pth.clone();
                 q.push(pth[pth.len() - 1] + mv);
                 next.push(q);
@@ -259,7 +263,7 @@ pub fn c17(tier: &str) -> i32 {
                 let (pi, qi) = jobs[i];
                 let p = &params[pi];
                 let levels = &all_paths[qi];
-                let mirrored: Vec<i64> = levels.iter().map(|m| 2 * CENTRE - m).collect();
+                let mirrored: Vec<i64> = levels.iter().map(|m| 2 * CENTRE_H - m).collect();
                 // scripts for the last round
                 let mut scripts: Vec<(Vec<Ans>, Option<Vec<f64>>)> = vec![
                     (vec![], None),
@@ -269,7 +273,7 @@ pub fn c17(tier: &str) -> i32 {
                 ];
                 if p.ratio == 0.0 {
                     // every combination of {0, just below p, just above p, 1-eps} per trader, for the p of this path
-                    let mids: Vec<f64> = levels.iter().map(|m| (*m as f64) * p.tick as f64).collect();
+                    let mids: Vec<f64> = levels.iter().map(|m| (*m as f64) / 2.0 * p.tick as f64).collect();
                     let ms = momentum_series(p, &mids);
                     let m_last = ms[ms.len() - 1];
                     let prob = (p.demand * (p.scale * m_last).tanh()).abs() / p.n as f64;
@@ -295,7 +299,7 @@ pub fn c17(tier: &str) -> i32 {
                 }
                 for (script, xs) in &scripts {
                     execs.fetch_add(2, Ordering::Relaxed);
-                    let replay = || json!({"engine": "c17", "params": format!("{:?}", p), "mid_levels_in_ticks": levels, "last_round_script": format!("{:?}", script)});
+                    let replay = || json!({"engine": "c17", "params": format!("{:?}", p), "mid_levels_in_half_ticks": levels, "last_round_script": format!("{:?}", script)});
                     let a = drive(p, levels, script, 3);
                     let b = drive(p, &mirrored, script, 3);
                     let (a, b) = match (a, b) {
@@ -343,11 +347,11 @@ pub fn c17(tier: &str) -> i32 {
     out.set("sell_orders_observed", json!(sells.load(Ordering::Relaxed)));
     out.set(
         "bounds",
-        json!({"moves_per_round_in_ticks": [-2, -1, 0, 1, 2], "max_path_length": max_len, "decay": [1.0, 0.5], "scale": [0.5, 10.0],
+        json!({"moves_per_round_in_ticks": [-2, -1, -0.5, 0, 0.5, 1, 2], "max_path_length": max_len, "decay": [1.0, 0.5], "scale": [0.5, 10.0],
                "demand": ["100 (saturated)", "0.6*n (unsaturated)"], "order_ratio": [0, 1], "traders": "1..3", "ticks": [1, 2], "multi_asset": [false, true],
                "last_round_answers": "default stream, all-zero, all-ones, mid; with ratio 0 every combination of {0, p-1e-9, p+1e-9, 1-1e-12} per trader"}),
     );
-    out.push("samples", json!({"mid_levels_in_ticks": all_paths[7], "params": format!("{:?}", params[3])}));
+    out.push("samples", json!({"mid_levels_in_half_ticks": all_paths[7], "params": format!("{:?}", params[3])}));
     if buys.load(Ordering::Relaxed) == 0 {
         out.machinery_errors.push("vacuous: no buy order observed".into());
     }
